@@ -29,7 +29,7 @@ m = {
         "guard": "--cfg betaveros_noulith_verif",
         "enable": "the harness crate's .cargo/config.toml passes RUSTFLAGS=--cfg betaveros_noulith_verif to every build of /repo as a path dependency",
         "baseline_off_cmd": "cd /repo && cargo nextest run --workspace --no-fail-fast --offline --test-threads 8",
-        "source_commits": [],
+        "source_commits": ["149af0e"],
         "add_only": True,
     },
     "engines": [{
